@@ -4,7 +4,10 @@ use std::{
     marker::PhantomData,
 };
 
+#[cfg(not(feature = "verif"))]
 use parking_lot::RwLockReadGuard;
+#[cfg(feature = "verif")]
+use rawdb::verif_sync::{RwLockReadGuard};
 use rawdb::{Region, RegionMetadata};
 
 use crate::{AnyStoredVec, BUFFER_SIZE, HEADER_OFFSET, VecIndex, VecValue, likely};
